@@ -12,6 +12,7 @@
 #include "util/buffer.h"
 #include "util/slice.h"
 #include "util/vector.h"
+#include "vp_vector_inc.h"   /* real util/vector.c, pointer arrays typed (kit) */
 #include "util/internal.h"
 #include "util/rbt.h"
 #include "dbformat.h"
